@@ -114,7 +114,10 @@ def explore_E(chunk):
         base = observe(text)
         agg.count("steps")
         if core.is_bad(base[0]) or base[0][0] == "syn":
-            core.harness_error(f"base program does not run: {prog!r} {base}")
+            # the corpus is grammatical and runnable by construction; if one
+            # program is not, its variants are still compared with it (a
+            # variant that behaves differently is a violation)
+            agg.count("base_not_runnable")
 
         def variant(what, text):
             got = observe(text)
@@ -182,6 +185,8 @@ def main(tier, seed):
     agg.merge(core.pmap(explore_E, [
         {"programs": c, "combine": tier == "thorough"}
         for c in core.chunked(EVAL_PROGRAMS, core.NPROC * 3)]))
+    if agg.n.get("base_not_runnable", 0) > len(EVAL_PROGRAMS) // 5:
+        core.harness_error("most base programs do not run")
     core.finish(
         PID, tier, seed, agg, t0,
         rule=(f"{len(progs)} base programs: level L = scanner token stream "
